@@ -51,6 +51,13 @@ func newbuilder(p *ir.Program) *builder {
 func (b *builder) process() error {
 	insts := b.prog.Instructions
 	n := len(insts)
+
+	// A program without instructions computes the one-element chain.
+	if n == 0 {
+		b.chain.Statements = append(b.chain.Statements, ast.Statement{Expr: ast.Operand(0)})
+		return nil
+	}
+
 	complexity := 0
 	for i := 0; i < n; i++ {
 		complexity++
